@@ -51,6 +51,7 @@ const (
 	LGlobal
 	LObj // pointer to heap struct object (whole)
 	LArr // pointer to heap array (whole)
+	LSentinel
 )
 
 type pathStep struct {
@@ -120,6 +121,8 @@ type funcTrans struct {
 	isLemma  bool
 	localSorts map[string]*Sort
 	fspec *frameSpec
+	iterMode string
+	envCells map[string]*Loc
 	ancMemo map[*ssa.BasicBlock]map[int]bool
 	hdrAssumed map[*ssa.BasicBlock]bool
 }
@@ -269,12 +272,21 @@ func (ft *funcTrans) run() (err error) {
 		ft.env[fmt.Sprintf("arg%d", i)] = t
 		ft.assumeWellTyped(t, ft.entry, "true")
 	}
+	ft.envCells = map[string]*Loc{}
 	for _, fv := range fn.FreeVars {
 		s := w.sortOf(fv.Type())
 		t := w.declConst("fv_"+fv.Name(), s)
 		ft.vals[fv] = &Val{T: t}
-		ft.env[fv.Name()] = t
 		ft.assumeWellTyped(t, ft.entry, "true")
+		w.addFact(fmt.Sprintf("(not (= %s 0))", t.S))
+		// a captured variable: the free variable is the address of its cell; the
+		// source-level name denotes the cell's content in the state at hand
+		if pt, ok := fv.Type().Underlying().(*types.Pointer); ok {
+			ft.envCells[fv.Name()] = ft.locOfRef(t.S, pt.Elem())
+			ft.env["&"+fv.Name()] = t
+		} else {
+			ft.env[fv.Name()] = t
+		}
 	}
 	if ft.universe != nil {
 		// re-create heap sort table entries lazily; nothing to do: names get declared on use
@@ -301,7 +313,7 @@ func (ft *funcTrans) run() (err error) {
 }
 
 func (ft *funcTrans) ctx(st, old *State) *evalCtx {
-	return &evalCtx{w: ft.w, pkg: ft.pkgTypes(), env: ft.env, st: st, old: old, lets: ft.lets()}
+	return &evalCtx{w: ft.w, pkg: ft.pkgTypes(), env: ft.env, st: st, old: old, lets: ft.lets(), cells: ft.envCells, ft: ft}
 }
 
 // assumeWellTyped adds the type invariants of a value: unsigned ranges,
